@@ -11,12 +11,12 @@ ModelNames == {"ModelRunIffGroupCan", "ModelOneCaller", "ModelCallerRunsOnlyEnab
 Holds(n) ==
   CASE n = "SameCycles" -> C!SameCycles
     [] n = "DataBothWays" -> C!DataBothWays
-    [] n = "ModelRunIffGroupCan" -> C!ModelRunIffGroupCan
-    [] n = "ModelOneCaller" -> C!ModelOneCaller
-    [] n = "ModelCallerRunsOnlyEnabled" -> C!ModelCallerRunsOnlyEnabled
-    [] n = "ModelArgDelivered" -> C!ModelArgDelivered
-    [] n = "ModelCallerSees" -> C!ModelCallerSees
-    [] OTHER -> C!ModelExtraRuns
+    [] n = "ModelRunIffGroupCan" -> (~C!Modelled \/ C!ModelRunIffGroupCan)
+    [] n = "ModelOneCaller" -> (~C!Modelled \/ C!ModelOneCaller)
+    [] n = "ModelCallerRunsOnlyEnabled" -> (~C!Modelled \/ C!ModelCallerRunsOnlyEnabled)
+    [] n = "ModelArgDelivered" -> (~C!Modelled \/ C!ModelArgDelivered)
+    [] n = "ModelCallerSees" -> (~C!Modelled \/ C!ModelCallerSees)
+    [] OTHER -> (~C!Modelled \/ C!ModelExtraRuns)
 Failing == {n \in PropNames \cup ModelNames : ~Holds(n)}
 Init == tid \in 1..Len(Cases) /\ l = 1 /\ status = "go"
 Step == /\ status = "go" /\ l <= NLines
